@@ -208,17 +208,31 @@ class Ctx:
         res = {"file": props_file, "theorems": [], "assumptions": {}, "ok": False, "log": "", "bad_axioms": [],
                "forbidden": [], "failed_stage": None}
         self.proof = res
-        # one prover at a time in coq/: concurrent checks would race on Makefile/.Makefile.d and shared .vo files
+        # coq/ is shared by all checks.  Two locks: .prove.lock (short: Makefile/dependency regeneration and the up-to-date
+        # test) and .build.lock (long: an actual compilation of dependencies).  A check whose dependency cone is up to date
+        # never waits for somebody else's compilation.
         import fcntl
-        lockf = open(os.path.join(COQDIR, ".prove.lock"), "w")
-        fcntl.flock(lockf, fcntl.LOCK_EX)
-        self._prove_lock = lockf
+        def locked(name):
+            f = open(os.path.join(COQDIR, name), "w"); fcntl.flock(f, fcntl.LOCK_EX); return f
+        def unlock(f):
+            fcntl.flock(f, fcntl.LOCK_UN); f.close()
+        lk = locked(".prove.lock")
         try:
-            return self._prove_locked(res, props_file, deps_targets, timeout)
+            r = self._prove_locked(res, props_file, deps_targets, timeout, question=True)
         finally:
-            fcntl.flock(lockf, fcntl.LOCK_UN); lockf.close()
+            unlock(lk)
+        if r.get("needs_build"):
+            bl = locked(".build.lock")
+            try:
+                r = self._prove_locked(res, props_file, deps_targets, timeout, question=False)
+            finally:
+                unlock(bl)
+        if r.get("failed_stage") is None and not r.get("ok"):
+            # the statement file itself is re-compiled OUTSIDE the locks (it writes nothing that another check reads)
+            r = self._prove_statements(res, props_file)
+        return r
 
-    def _prove_locked(self, res, props_file, deps_targets, timeout):
+    def _prove_locked(self, res, props_file, deps_targets, timeout, question=False):
         pid = self.pid
         rc, o, e = sh(["make", "-C", VERIF, "coq/Makefile"], timeout=300)
         if rc != 0:
@@ -230,9 +244,21 @@ class Ctx:
         printed = re.findall(r"^\s*Print\s+Assumptions\s+([A-Za-z0-9_'.]+)\s*\.", code, re.M)
         res["forbidden"] = self.forbidden_scan()
         # 1. dependencies (and regenerated Gen files) through make: full .vo build, never -vos
-        try: os.remove(os.path.join(COQDIR, vo))
-        except OSError: pass
-        targets = [vo] + list(deps_targets or [])
+        # (only the dependencies: the statement file is compiled once, outside the lock, by _prove_statements)
+        rc, o, e = sh(["coqdep", "-R", ".", LOGICAL, props_file], cwd=COQDIR, timeout=120)
+        deps = []
+        for line in o.splitlines():
+            if line.startswith(vo) and ":" in line:
+                deps = [d for d in line.split(":", 1)[1].split() if d.endswith(".vo")]
+        if rc != 0 or not deps:
+            deps = [vo]          # fall back to building the statement file through make as well
+        targets = deps + list(deps_targets or [])
+        res.pop("needs_build", None)
+        if question:
+            rc, o, e = sh(["make", "-q"] + targets, cwd=COQDIR, timeout=600)
+            if rc != 0:
+                res["needs_build"] = True
+            return res
         rc, o, e = sh(["timeout", str(timeout), "make", "-k", "-j", os.environ.get("VERIF_JOBS", "16")] + targets,
                       cwd=COQDIR, timeout=timeout + 30)
         res["log"] = (o + "\n" + e)[-6000:]
@@ -241,8 +267,15 @@ class Ctx:
             m = re.search(r'File "([^"]+)", line (\d+)', o + e)
             res["failed_at"] = m.group(0) if m else None
             return res
-        # 2. the statement file itself, output captured
-        rc, o, e = sh(["timeout", "600", "coqc", "-q", "-R", ".", LOGICAL, props_file], cwd=COQDIR, timeout=630)
+        return res
+
+    def _prove_statements(self, res, props_file):
+        pid = self.pid
+        code = strip_coq_comments(open(os.path.join(COQDIR, props_file)).read())
+        printed = re.findall(r"^\s*Print\s+Assumptions\s+([A-Za-z0-9_'.]+)\s*\.", code, re.M)
+        # 2. the statement file itself, output captured (compiled into the scratch directory: concurrent runs do not collide)
+        outvo = os.path.join(self.scratch, os.path.basename(props_file)[:-2] + ".vo")
+        rc, o, e = sh(["timeout", "900", "coqc", "-q", "-noglob", "-R", ".", LOGICAL, "-o", outvo, props_file], cwd=COQDIR, timeout=930)
         res["log"] = (o + "\n" + e)[-6000:]
         if rc != 0:
             res["failed_stage"] = "coqc-props"; return res
